@@ -29,7 +29,7 @@ func init() {
 		Checks: map[string]func(*core.Env, []json.RawMessage){"prog": replayC06, "gen": replayC06Gen},
 		Threshold: func(m *core.Merged) []string {
 			var r []string
-			for _, k := range []string{"binop", "not", "iif", "where", "exists", "all", "asbool", "demorgan", "implies-law", "both-rooted", "generated-resource", "gen-form:T", "gen-form:F", "gen-form:N", "gen-form:M", "gen-form:E"} {
+			for _, k := range []string{"binop", "not", "iif", "where", "exists", "all", "asbool", "demorgan", "implies-law", "both-rooted", "generated-resource", "env-operands", "gen-form:T", "gen-form:F", "gen-form:N", "gen-form:M", "gen-form:E"} {
 				if m.Cover[k] == 0 {
 					r = append(r, "never observed: "+k)
 				}
@@ -232,6 +232,47 @@ func runC06(env *core.Env) {
 		c06Prog(env, "all", "(7).all("+a.Src+")", whereTab[a.Val])
 		env.Cover("all")
 	}
+	// one source text, many operand values: both operands are environment variables whose values change from
+	// one evaluation to the next (the compile-once / evaluate-many use of the library; fx.Eval also re-evaluates
+	// the expression compiled at the first occurrence of each source)
+	type ev struct {
+		val string
+		v   any
+	}
+	evs := []ev{{"T", system.Boolean(true)}, {"F", system.Boolean(false)}, {"E", system.Collection{}}, {"N", system.Integer(5)}, {"M", system.Collection{system.Boolean(true), system.Boolean(false)}},
+		{"T", &dtpb.Boolean{Value: true}}, {"F", &dtpb.Boolean{Value: false}}, {"N", &dtpb.HumanName{Family: &dtpb.String{Value: "Z"}}}, {"N", system.String("false")}, {"M", system.Collection{system.Integer(1), system.Integer(2)}}}
+	notTab0 := map[string]string{"T": "F", "F": "T", "E": "E", "N": "F", "M": "ERR"}
+	iifTab0 := map[string]string{"T": "T", "F": "F", "E": "F", "N": "T", "M": "ERR"}
+	for round := 0; round < 2; round++ {
+		for i := range evs {
+			// the second round walks the values in reverse, so that every value follows every other one
+			a := evs[i]
+			if round == 1 {
+				a = evs[len(evs)-1-i]
+			}
+			n++
+			if !env.Mine(n) {
+				continue
+			}
+			for _, b := range evs {
+				eo := []fhirpath.EvaluateOption{evalopts.EnvVariable("a", a.v), evalopts.EnvVariable("b", b.v)}
+				for _, op := range []string{"and", "or", "xor", "implies"} {
+					c06EnvProg(env, "env-binop-"+op, "%a "+op+" %b", logic3(op, a.val, b.val), eo)
+				}
+				crit := "ERR" // a multi-item criterion is an error wherever it stands
+				if a.val != "M" && b.val != "M" {
+					crit = logic3("and", iifTab0[a.val], iifTab0[b.val])
+				}
+				c06EnvProg(env, "env-criteria", "(7).where(%a).exists() and (7).exists(%b)", crit, eo)
+			}
+			eo := []fhirpath.EvaluateOption{evalopts.EnvVariable("a", a.v)}
+			c06EnvProg(env, "env-not", "%a.not()", notTab0[a.val], eo)
+			c06EnvProg(env, "env-iif", "iif(%a, true, false)", iifTab0[a.val], eo)
+			c06EnvProg(env, "env-literal-operand", "%a and true", logic3("and", a.val, "T"), eo)
+			c06EnvProg(env, "env-literal-operand", "false or %a", logic3("or", "F", a.val), eo)
+			env.Cover("env-operands")
+		}
+	}
 	// operand forms from generated resources of every type
 	per := env.Size(1, 10)
 	for k := 0; k < per; k++ {
@@ -355,6 +396,20 @@ func replayC06Gen(env *core.Env, a []json.RawMessage) {
 	json.Unmarshal(a[1], &seed)
 	json.Unmarshal(a[2], &rich)
 	c06Resource(env, tn, seed, rich)
+}
+
+func c06EnvProg(env *core.Env, kind, src, want string, eo []fhirpath.EvaluateOption) {
+	defer env.In("prog", kind, src, want)()
+	r := fx.Eval(env, src, nil, nil, eo)
+	env.Case()
+	got := obs3(r)
+	if got != want {
+		if r.IsPanic() {
+			env.Violatef(fx.PanicSig("C06", r), "`%s` => %s", src, r.Short())
+		} else {
+			env.Violatef("C06/"+kind+"/want-"+want+"-got-"+got, "`%s` with the operands supplied as environment variables: expected %s, observed %s (%s)", src, want, got, trunc(r.Short(), 200))
+		}
+	}
 }
 
 func c06Law(env *core.Env, law, lhs, rhs string) {
